@@ -488,7 +488,7 @@ def run_walks(info, rnds, steps, log, focus=()):
             return mism, cover, rep.split("#@#WALKERROR", 1)[1].split("#@#END")[0].strip()
         for mm in rep.split("#@#MISMATCH")[1:]:
             mm = mm.split("#@#END")[0]
-            d = {"rnd": r, "steps": steps, "system": name}
+            d = {"rnd": r, "steps": steps, "system": name, "focus": list(focus)}
             for part in mm.split("#@#"):
                 if "=" in part:
                     k, v = part.split("=", 1)
